@@ -36,10 +36,15 @@ ASSUMPTIONS = [
 
 def corpus_scenarios(prop: str) -> list[dict]:
     out = []
+    seen = set()
     d = C.CORPUS / 'life'
     if d.exists():
         for p in sorted(d.glob('*.json')):
             j = json.loads(p.read_text())
+            key = json.dumps([j.get('config'), j.get('steps')], sort_keys=True)
+            if key in seen:        # the same history was saved once per property it violated
+                continue
+            seen.add(key)
             j.setdefault('meta', {})['corpus'] = p.name
             out.append(j)
     return out
